@@ -95,7 +95,30 @@ fn chain(t: &[&str]) -> String {
     }
     let mut listed: Vec<String> = match chain.list() { Ok(l) => l.iter().map(|e| hex(e.name.as_bytes())).collect(), Err(_) => vec!["LIST-ERR".to_string()] };
     listed.sort();
-    format!("{} | {}", out.join(","), listed.join(","))
+    // the chain as it describes itself: archives in its own order with their priorities; the batch reader; the second parallel constructor
+    let info: Vec<(String, i32)> = chain.get_chain_info().iter().map(|i| (id_of(&i.path), i.priority)).collect();
+    let mut flags = Vec::new();
+    if chain.archive_count() != info.len() { flags.push("COUNT".to_string()); }
+    // get_priority answers for the first entry with that path: only meaningful where a path occurs once
+    for (id, pr) in &info { if info.iter().filter(|(i, _)| i == id).count() == 1 && chain.get_priority(path(id)) != Some(*pr) { flags.push(format!("PRIO{id}")); } }
+    let qn: Vec<String> = t[3].split(',').map(|n| String::from_utf8(unhex(n)).unwrap()).collect();
+    let qr: Vec<&str> = qn.iter().map(|x| x.as_str()).collect();
+    let batch: Vec<Option<Vec<u8>>> = chain.extract_files(&qr).into_iter().map(|(_, r)| r.ok()).collect();
+    let single: Vec<Option<Vec<u8>>> = qr.iter().map(|n| chain.read_file(n).ok()).collect();
+    if batch != single { flags.push("EXTRACT-FILES".to_string()); }
+    if t[0] == "par" {
+        let l: Vec<(String, i32)> = ops.iter().filter(|o| o.starts_with("a.")).map(|o| { let p: Vec<&str> = o.split('.').collect(); (path(p[1]), p[2].parse::<i32>().unwrap()) }).collect();
+        let mut c2 = PatchChain::new();
+        match c2.add_archives_parallel(l) {
+            Err(_) => flags.push("ADD-PARALLEL-ERR".to_string()),
+            Ok(()) => {
+                let i2: Vec<(String, i32)> = c2.get_chain_info().iter().map(|i| (id_of(&i.path), i.priority)).collect();
+                let r2: Vec<Option<Vec<u8>>> = qr.iter().map(|n| c2.read_file(n).ok()).collect();
+                if i2 != info || r2 != single { flags.push("ADD-PARALLEL-DIFF".to_string()); }
+            }
+        }
+    }
+    format!("{} | {} | {};{}", out.join(","), listed.join(","), info.iter().map(|(i, p)| format!("{i}:{p}")).collect::<Vec<_>>().join(","), flags.join("+"))
 }
 
 fn short(d: &[u8]) -> String {
@@ -165,12 +188,61 @@ fn multi(t: &[&str]) -> String {
     let paths: Vec<&str> = t[1].split(',').collect();
     let par = wow_mpq::parallel::extract_from_multiple_archives(&paths, &name);
     let seq: Result<Vec<(PathBuf, Vec<u8>)>, wow_mpq::Error> = paths.iter().map(|p| Archive::open(p).and_then(|mut a| a.read_file(&name)).map(|d| (PathBuf::from(p), d))).collect();
-    match (par, seq) {
+    let first = match (par, seq) {
         (Ok(a), Ok(b)) => if a == b { "SAME".to_string() } else { "DIFF".to_string() },
         (Err(_), Err(_)) => "SAME-ERR".to_string(),
         (Ok(_), Err(_)) => "DIFF par-ok seq-err".to_string(),
         (Err(_), Ok(_)) => "DIFF par-err seq-ok".to_string(),
+    };
+    if first.starts_with("DIFF") { return first; }
+    // the other multi-archive helpers against their sequential meaning
+    let names = [name.as_str(), "(listfile)"];
+    let pm = wow_mpq::parallel::extract_multiple_from_multiple_archives(&paths, &names);
+    let sm: Result<Vec<(PathBuf, Vec<(String, Vec<u8>)>)>, wow_mpq::Error> = paths.iter().map(|p| {
+        let mut a = Archive::open(p)?;
+        let f: Result<Vec<(String, Vec<u8>)>, wow_mpq::Error> = names.iter().map(|n| a.read_file(n).map(|d| (n.to_string(), d))).collect();
+        Ok((PathBuf::from(p), f?))
+    }).collect();
+    match (pm, sm) {
+        (Ok(a), Ok(b)) => if a != b { return "DIFF extract_multiple_from_multiple_archives".to_string(); },
+        (Err(_), Err(_)) => {}
+        _ => return "DIFF extract_multiple_from_multiple_archives outcome".to_string(),
     }
+    let pat: String = name.chars().take(3).collect();
+    let ps = wow_mpq::parallel::search_in_multiple_archives(&paths, &pat);
+    let ss: Result<Vec<(PathBuf, Vec<String>)>, wow_mpq::Error> = paths.iter().map(|p| {
+        let mut a = Archive::open(p)?;
+        Ok((PathBuf::from(p), a.list()?.into_iter().filter(|e| e.name.contains(&pat)).map(|e| e.name).collect()))
+    }).collect();
+    match (ps, ss) {
+        (Ok(a), Ok(b)) => if a != b { return "DIFF search_in_multiple_archives".to_string(); },
+        (Err(_), Err(_)) => {}
+        _ => return "DIFF search_in_multiple_archives outcome".to_string(),
+    }
+    // ParallelArchive::extract_matching_parallel / read_file_with_new_handle against list + read
+    for p in &paths {
+        let pa = match wow_mpq::single_archive_parallel::ParallelArchive::open(p) { Ok(a) => a, Err(_) => continue };
+        let got = pa.extract_matching_parallel(|n| n.contains(&pat));
+        let want: Result<Vec<(String, Vec<u8>)>, wow_mpq::Error> = (|| {
+            let mut a = Archive::open(p)?;
+            let l = a.list()?;
+            l.into_iter().filter(|e| e.name.contains(&pat)).map(|e| a.read_file(&e.name).map(|d| (e.name.clone(), d))).collect()
+        })();
+        match (got, want) {
+            (Ok(mut a), Ok(mut b)) => { a.sort(); b.sort(); if a != b { return "DIFF extract_matching_parallel".to_string(); } }
+            (Err(_), Err(_)) => {}
+            _ => return "DIFF extract_matching_parallel outcome".to_string(),
+        }
+        if pa.read_file_with_new_handle(&name).ok() != Archive::open(p).ok().and_then(|mut a| a.read_file(&name).ok()) { return "DIFF read_file_with_new_handle".to_string(); }
+    }
+    let pp = wow_mpq::parallel::process_archives_parallel(&paths, |mut a| Ok(a.list()?.len()));
+    let sp: Result<Vec<usize>, wow_mpq::Error> = paths.iter().map(|p| Ok(Archive::open(p)?.list()?.len())).collect();
+    match (pp, sp) {
+        (Ok(a), Ok(b)) => if a != b { return "DIFF process_archives_parallel".to_string(); },
+        (Err(_), Err(_)) => {}
+        _ => return "DIFF process_archives_parallel outcome".to_string(),
+    }
+    first
 }
 
 /// modify <work archive path> <ops ,> <names hex ,>
